@@ -141,9 +141,12 @@ def run_c17(tier, seed, t0):
 
 def scenario(args_list, path):
     """Run each scenario in its own child process; a crash becomes an event."""
-    binp = vlib.build_harness("release")
     with open(path, "w") as f:
-        for (sc, n, kb) in args_list:
+        for item in args_list:
+            # (scenario, n, stack KiB[, build profile]): profile "unopt" = no optimisation + debug assertions (the default `cargo
+            # build`): recursion that an optimised build turns into a loop keeps its frames there
+            (sc, n, kb), prof = item[:3], (item[3] if len(item) > 3 else "release")
+            binp = vlib.build_harness(prof)
             t = time.time()
             try:
                 r = subprocess.run([binp, "stack", "--scenario", sc, "--n", str(n), "--stack-kb", str(kb)], stdout=subprocess.PIPE, stderr=subprocess.PIPE, text=True, timeout=1500)
@@ -156,7 +159,7 @@ def scenario(args_list, path):
             else:
                 why = "timeout" if rc == -999 else ("signal %d" % -rc if rc < 0 else "exit %d" % rc)
                 f.write(json.dumps({"ev": "stack", "scenario": sc, "n": n, "stack_kb": kb, "hwm": 0, "exit": why, "size": 0, "popped": 0, "polys": 0, "area2": 0}) + "\n")
-            log("  scenario %-28s n=%-8d stack=%dKiB %.1fs" % (sc, n, kb, time.time() - t))
+            log("  scenario %-28s n=%-8d stack=%dKiB %s%.1fs" % (sc, n, kb, "" if prof == "release" else "[%s build] " % prof, time.time() - t))
 
 
 def validate_stack(path, wd, budget):
@@ -213,6 +216,12 @@ def run_c18(tier, seed, t0):
     log("[C18] MC_Splay stack model: %d distinct states, C18_StackBounded holds, %.1fs" % (res["distinct"], dt))
     path = os.path.join(wd, "stack.ndjson")
     scs = tree_scenarios(tier) + bool_scenarios(tier)
+    # a sample of the same scenarios in a build WITHOUT optimisation (debug assertions on): recursion that the optimiser
+    # turns into a loop keeps its frames there - one long result contour, stacked result edges, a long sweep line dropped early
+    ts = tree_scenarios(tier)
+    scs += [(sc, n, min(kb, 1024), "unopt") for (sc, n, kb) in ts[::max(1, len(ts) // 8)]]
+    k = 1 if tier == "quick" else 5
+    scs += [("bool:stair:union", 60000 * k, 1024, "unopt"), ("bool:steps:union", 30000 * k, 1024, "unopt"), ("bool:comb:int", 40000 * k, 1024, "unopt"), ("bool:hub:union", 20000 * k, 1024, "unopt")]
     scenario(scs, path)
     res2, fails, dt2 = validate_stack(path, os.path.join(wd, "trace"), STACK_BUDGET)
     evs = vlib.load_sessions(path)
